@@ -3597,7 +3597,7 @@ class DecVar(Vars):
 
             if len(outputs) > 1:
                 ind_label = self.dro_model.series_scen.index
-                return pd.Series([outputs[edict[key]] for key in edict],
+                return pd.Series([outputs[edict[key]] for key in sorted(edict)],
                                  index=ind_label)
             else:
                 return outputs[0]
@@ -3624,7 +3624,7 @@ class DecVar(Vars):
 
             if len(outputs) > 1:
                 ind_label = self.dro_model.series_scen.index
-                return pd.Series([outputs[edict[key]] for key in edict],
+                return pd.Series([outputs[edict[key]] for key in sorted(edict)],
                                  index=ind_label)
             else:
                 return outputs[0]
